@@ -1,8 +1,80 @@
-(** C04 — placeholder until the flag lemmas and semantic mirrors land in this round. *)
-From Coq Require Import ZArith List Bool String Lia.
-From Mx Require Import Expr.
+(** C04 — lifted x86 semantics match the processor on the integer core.  Property theorems only.
+    What is proved (arithmetic / logic group: add adc sub sbb cmp and or xor test, every operand form and width):
+      (tie)     every such form of the lifted dump regenerated from /repo (one per mnemonic x operand-size x operand-shape
+                signature) whose operands have equal width IS, node for node, the mirror of Sem.v applied to its own operands;
+      (meaning) for ALL operand expressions of equal width n, all register / flag / memory valuations and all interpretations
+                of uninterpreted operators: the value is the n-bit sum / difference / bitwise result (with carry-in for adc/sbb),
+                cf is the carry / borrow out, of is the signed overflow, zf / sf / pf are those of the result.
+    af is refuted (known finding: the formula is pinned by tests/test_emul.py).  Everything else of the integer core (shifts,
+    rotates, mul/div, string, stack, control transfer, setcc/cmovcc ...) is decided by evaluating the regenerated IR with the
+    extracted Expr.eval against the SDM reference (harness/p_c04.py), not by a theorem. *)
+From Coq Require Import ZArith List Bool String.
+From Mx Require Import Expr Wf Sem SemProofs SemFacts.
+From MxGen Require Import LiftAll.
 Import ListNotations.
 Open Scope Z_scope.
-Theorem C04_wrap_add : forall w a b, 0 < w -> wrap w (wrap w a + wrap w b) = wrap w (a + b).
-Proof. intros. unfold wrap. rewrite <- Z.add_mod by (apply Z.pow_nonzero; lia || apply Z.lt_le_incl; assumption). reflexivity. Qed.
-Print Assumptions C04_wrap_add.
+
+Theorem C04_alu_forms_are_the_mirror : forall sh c, In sh shards -> In c sh -> tie_ok c = true.
+Proof. exact alu_forms_tied_lifted. Qed.
+Print Assumptions C04_alu_forms_are_the_mirror.
+
+Theorem C04_tied_form_means_mirror : forall k l, is_mirror k l = true ->
+  exists a b, operand_ok a = true /\ operand_ok b = true /\ size a = size b /\ (size a = 8 \/ size a = 16 \/ size a = 32) /\
+              forall rho mu iota, map (eval rho mu iota) l = map (eval rho mu iota) (mirror k a b).
+Proof. exact is_mirror_sound. Qed.
+Print Assumptions C04_tied_form_means_mirror.
+
+Theorem C04_add_adc : forall rho mu iota a b, operand_ok a = true -> operand_ok b = true -> size a = size b ->
+  forall k cin_, (k = Add /\ cin_ = 0) \/ (k = Adc /\ cin_ = ci rho) ->
+  let n := size a in let x := eval rho mu iota a in let y := eval rho mu iota b in let c := alu_val k a b in
+  eval rho mu iota c = (x + y + cin_) mod 2 ^ n /\
+  eval rho mu iota (add_cf_src a b c) = Z.b2z (cf_add n x y cin_) /\
+  eval rho mu iota (add_of_src a b c) = Z.b2z (of_add n x y cin_).
+Proof. exact add_flags. Qed.
+Print Assumptions C04_add_adc.
+
+Theorem C04_sub_sbb_cmp : forall rho mu iota a b, operand_ok a = true -> operand_ok b = true -> size a = size b ->
+  forall k cin_, ((k = Sub \/ k = Cmp) /\ cin_ = 0) \/ (k = Sbb /\ cin_ = ci rho) ->
+  let n := size a in let x := eval rho mu iota a in let y := eval rho mu iota b in let c := alu_val k a b in
+  eval rho mu iota c = (x - y - cin_) mod 2 ^ n /\
+  eval rho mu iota (sub_cf_src a b c) = Z.b2z (cf_sub n x y cin_) /\
+  eval rho mu iota (sub_of_src a b c) = Z.b2z (of_sub n x y cin_).
+Proof. exact sub_flags. Qed.
+Print Assumptions C04_sub_sbb_cmp.
+
+Theorem C04_logic : forall rho mu iota a b, operand_ok a = true -> operand_ok b = true -> size a = size b ->
+  let x := eval rho mu iota a in let y := eval rho mu iota b in
+  eval rho mu iota (alu_val And a b) = Z.land x y /\ eval rho mu iota (alu_val Test a b) = Z.land x y /\
+  eval rho mu iota (alu_val Or a b) = Z.lor x y /\ eval rho mu iota (alu_val Xor a b) = Z.lxor x y.
+Proof. exact logic_vals. Qed.
+Print Assumptions C04_logic.
+
+Theorem C04_zf_sf_pf : forall rho mu iota a b, operand_ok a = true -> operand_ok b = true -> size a = size b -> forall k,
+  let c := alu_val k a b in
+  eval rho mu iota (ECond c (i1 0) (i1 1)) = (if eval rho mu iota c =? 0 then 1 else 0) /\
+  eval rho mu iota (msb c) = Z.b2z (Z.testbit (eval rho mu iota c) (size a - 1)) /\
+  eval rho mu iota (EOp "parity" [c]) = parity8 (eval rho mu iota c).
+Proof. intros rho mu iota a b Ha Hb _ k. exact (znp_flags rho mu iota a b Ha Hb k). Qed.
+Print Assumptions C04_zf_sf_pf.
+
+(** the carry / overflow identities themselves, for every width and value *)
+Theorem C04_carry_identities : forall n x y ci, 0 < n -> 0 <= x < 2 ^ n -> 0 <= y < 2 ^ n -> 0 <= ci <= 1 ->
+  let bx := Z.testbit x (n - 1) in let by_ := Z.testbit y (n - 1) in
+  (let bz := Z.testbit ((x + y + ci) mod 2 ^ n) (n - 1) in
+   xorb (xorb (xorb bx by_) bz) (andb (xorb bx bz) (negb (xorb bx by_))) = cf_add n x y ci /\ andb (xorb bx bz) (negb (xorb bx by_)) = of_add n x y ci) /\
+  (let bz := Z.testbit ((x - y - ci) mod 2 ^ n) (n - 1) in
+   xorb (xorb (xorb bx by_) bz) (andb (xorb bx bz) (xorb bx by_)) = cf_sub n x y ci /\ andb (xorb bx bz) (xorb bx by_) = of_sub n x y ci).
+Proof. intros n x y ci Hn Hx Hy Hc. split; [exact (add_identities n x y ci Hn Hx Hy Hc) | exact (sub_identities n x y ci Hn Hx Hy Hc)]. Qed.
+Print Assumptions C04_carry_identities.
+
+(** the mirror lays the assignments out as the lifter does *)
+Example C04_mirror_layout : forall a b, let c := alu_val Add a b in
+  mirror Add a b = [upd_zf c; upd_nf c; upd_pf c; upd_af c; EAff (flag "cf") (add_cf_src a b c); EAff (flag "of") (add_of_src a b c); mk_aff a c].
+Proof. reflexivity. Qed.
+(** non-vacuity: more than 2000 regenerated forms are tied; and the auxiliary-carry formula is refuted *)
+Example C04_nonvacuous : (2000 <= n_tied)%nat.
+Proof. exact many_forms_tied. Qed.
+Example C04_af_refuted : exists rho, let a := EId "eax" 32 true false in let b := EId "ebx" 32 true false in
+  eval rho (fun _ => 0) (fun _ _ => 0) (ECond (e_and (alu_val Add a b) (int_from (alu_val Add a b) 16)) (i1 1) (i1 0)) = 1 /\
+  (rho "eax" mod 16 + rho "ebx" mod 16) / 16 = 0.
+Proof. exact af_formula_refuted. Qed.
